@@ -87,7 +87,26 @@ void c01_case(Tape& t, Ctx& ctx) {
     default: {
       // object that previously held a different problem and has been queried
       SplineCase<D> old = gen_spline_case<D>(t, S, wellscaled_ratio(S), 8, 12);
-      if (t.flag()) { old.N = N; old.T.assign(N, 1.0); old.P.setZero(N + 1, D); }  // same size as the new problem
+      int ov = t.pickw({2, 2, 2});
+      bool old_by_points = false;
+      if (ov == 1) { old.N = N; old.T.assign(N, 1.0); old.P.setZero(N + 1, D); }  // same size as the new problem
+      else if (ov == 2) {
+        // the same problem except ONE ingredient (durations / waypoints / boundary state / start time), submitted through either overload
+        SplineCase<D> alt; alt.s = S; alt.N = N;
+        gen_durations(t, N, wellscaled_ratio(S), alt.T, &alt.sigma, &alt.ratio, &alt.dur_shape, &alt.shape);
+        alt.t0 = c.t0; gen_data(t, alt);
+        old = c;
+        switch (t.range(0, 3)) {
+          case 0: old.T = alt.T; break;
+          case 1: old.P = alt.P; break;
+          case 2: old.bc = alt.bc; break;
+          default: old.t0 = c.t0 + 0.5 + t.range(0, 8); break;
+        }
+        old_by_points = t.flag();
+        ctx.label("reused:same-problem-but-one-ingredient");
+      }
+      if (old_by_points) sp_heap.reset(new Spline(old.time_points(), old.P, old.bc));
+      else
       sp_heap.reset(new Spline(old.T, old.P, old.t0, old.bc));
       for (int k = 0; k <= 3; ++k) (void)sp_heap->getTrajectory().evaluate(old.t0 + 0.25 * old.T[0], k);
       (void)sp_heap->getEnergy();
@@ -588,7 +607,8 @@ void c18_case(Tape& t, Ctx& ctx) {
   c.dur_shape = names[shape]; c.shape = shape;
   { double mn = c.T[0], mx = c.T[0]; for (double x : c.T) { mn = std::min(mn, x); mx = std::max(mx, x); } c.ratio = mx / mn; }
   c.sigma = std::sqrt(lo * hi);
-  c.t0 = 0;
+  c.t0 = t.flag() ? 0.0 : gen_start_time(t);   // the defining equations are about local times: the start time must not matter
+  if (c.t0 != 0) ctx.label("nonzero-start-time");
   gen_data(t, c, false);
   // mostly a fresh object; also through the time-point overload, and an object that held the same problem except for one
   // ingredient (one boundary field / the boundary argument / the waypoints / the order of the durations) before the update
